@@ -606,11 +606,27 @@ impl<'a> Runtime<'a> {
     }
 
     fn hoist_block_functions(&mut self, block: BlockRef<'a>) {
+        let mut defines_function = false;
         for stmt in block.stmts {
             let Stmt::FunctionDef { name, params, body, .. } = stmt else {
                 continue;
             };
             self.register_function(name, params, body);
+            defines_function = true;
+        }
+
+        // A hoisted function can run before the declarations of its block have. The block's
+        // variables therefore exist from its start and hold null until their `make` runs, so
+        // that such a call neither meets a missing variable nor, in a recursive function,
+        // picks up the variable of the caller's activation.
+        if defines_function {
+            for stmt in block.stmts {
+                if let Stmt::Assign { var, .. } = stmt
+                    && let Some(local) = self.bound_stmt_local(stmt)
+                {
+                    self.define_bound_local(local, var, Value::Null);
+                }
+            }
         }
     }
 
